@@ -268,3 +268,111 @@ def gen_purity_world(rw, rv, knobs):
             settings = R.add("st", {"kind": "settings", "kw": {"use_w_tilde": True}})
         R.add("inv", {"kind": "inversion", "dataset": ref(di), "objs": [ref(mp)], "settings": ref(settings) if settings else None})
     return R.nodes
+
+
+# ---------------------------------------------------------------------------------------------------
+# C15: the fixed template  dataset D + linear objects L + source inversion + one shared Preloads
+# ---------------------------------------------------------------------------------------------------
+
+PUBLIC_SLOTS = ["w_tilde", "curvature_matrix", "regularization_matrix", "log_det_regularization_matrix_term", "operated_mapping_matrix"]
+
+
+def gen_preloads_world(rw, rv, knobs):
+    """
+    -> (nodes, meta).  Input space of C04: masks with footprint inside the frame, positive noise, data positive /
+    zero-mean / negative, odd PSFs square and non-square (1..5 per axis), non-negative and signed, sub-size 1-2,
+    1-3 linear objects of {rectangular mapper, Delaunay mapper, function list} in any order, each with a
+    regularization of C07's list or none.
+    """
+    R = Recipe()
+    ky, kx = rw.choice([1, 3, 3, 5]), rw.choice([1, 3, 3, 5])
+    if rw.random() < 0.5:
+        kx = ky
+    my, mx = ky // 2, kx // 2
+    h = rw.randrange(max(4, 2 * my + 3), max(5, 2 * my + 3) + 4)
+    w = rw.randrange(max(4, 2 * mx + 3), max(5, 2 * mx + 3) + 4)
+    ps = scales(rw, aniso_ok=False)
+    style = rw.choice(["interior", "random", "random", "circular"])
+    # footprint of the kernel must stay inside the frame: margin per axis
+    bits = []
+    base = mask_bits(rw, h, w, style, 0)
+    for y in range(h):
+        for x in range(w):
+            inside = my <= y < h - my and mx <= x < w - mx
+            inside = inside and (y >= 1 and x >= 1 and y < h - 1 and x < w - 1)
+            bits.append(base[y * w + x] if inside else "1")
+    bits = "".join(bits)
+    if n_unmasked(bits) < 3:
+        bits = "".join("0" if (max(1, my) <= y < h - max(1, my) and max(1, mx) <= x < w - max(1, mx)) else "1" for y in range(h) for x in range(w))
+    n0 = n_unmasked(bits)
+    m0 = R.add("m", {"kind": "mask2d", "shape": [h, w], "bits": bits, "pixel_scales": ps, "origin": [0.0, 0.0]})
+    mf = R.add("m", {"kind": "mask2d", "shape": [h, w], "bits": "0" * (h * w), "pixel_scales": ps, "origin": [0.0, 0.0]})
+    data_style = rw.choice(["positive", "normal", "data"])
+    d0 = R.add("a", {"kind": "array2d", "mask": ref(mf), "input": "native", "values": hx(rv, h * w, data_style)})
+    if data_style == "positive" and rw.random() < 0.3:
+        # negative data
+        R.nodes[-1]["values"] = [prng.fhex(-prng.unhex(v)) for v in R.nodes[-1]["values"]]
+    nz = R.add("a", {"kind": "array2d", "mask": ref(mf), "input": "native", "values": hx(rv, h * w, "noise")})
+    signed = rw.random() < 0.35
+    kvals = hx(rv, ky * kx, "normal" if signed else "positive")
+    psf = R.add("k", {"kind": "kernel2d", "shape": [ky, kx], "values": kvals, "pixel_scales": ps, "normalize": False})
+    sub = rw.choice([1, 1, 2])
+    over = {"pixelization": {"uniform": sub}}
+    use_normalized_psf = not signed
+    ds_spec = {"kind": "imaging", "data": ref(d0), "noise": ref(nz), "psf": ref(psf), "over": over, "use_normalized_psf": use_normalized_psf}
+    ds0 = R.add("ds", ds_spec)
+    D = R.add("ds", {"kind": "derive", "src": ref(ds0), "q": {"t": "call", "name": "apply_mask", "kw": {"mask": ref(m0)}}})
+    # an identical second dataset ("computed from an identical dataset")
+    ds0b = R.add("ds", dict(ds_spec))
+    D2 = R.add("ds", {"kind": "derive", "src": ref(ds0b), "q": {"t": "call", "name": "apply_mask", "kw": {"mask": ref(m0)}}})
+
+    adapt = None
+    if rw.random() < 0.4:
+        adapt = R.add("a", {"kind": "array2d", "mask": ref(m0), "input": "slim", "values": hx(rv, n0, "positive")})
+    obj_specs = []
+    n_obj = rw.randrange(1, 4)
+    for _ in range(n_obj):
+        if rw.random() < 0.7:
+            s = gen_mapper_spec(rw, rv, m0, (h, w), ps, adapt, knobs.get("profile_on", False))
+            s["sub_size"] = sub
+            s["border"] = False
+            if s["reg"] is None and rw.random() < 0.7:
+                s["reg"] = gen_reg(rw, s["mesh"]["kind"], adapt is not None, allow_none=False)
+            obj_specs.append(("mp", s))
+        else:
+            cols = rw.randrange(1, 3)
+            obj_specs.append(("fl", {"kind": "func_list", "mask": ref(m0), "columns": cols, "matrix": hx(rv, n0 * cols, "positive"), "reg": None}))
+    if not any(p == "mp" for p, _ in obj_specs) and rw.random() < 0.7:
+        s = gen_mapper_spec(rw, rv, m0, (h, w), ps, adapt, False)
+        s["sub_size"] = sub
+        s["border"] = False
+        obj_specs[0] = ("mp", s)
+    rw.shuffle(obj_specs)
+    L = [R.add(p, s) for p, s in obj_specs]
+    L2 = [R.add(p, dict(s)) for p, s in obj_specs]  # identical copies
+
+    solver = {}
+    if rw.random() < 0.5:
+        solver["use_positive_only_solver"] = rw.random() < 0.5
+    st_w = R.add("st", {"kind": "settings", "kw": dict(solver, use_w_tilde=True)})
+    st_m = R.add("st", {"kind": "settings", "kw": dict(solver, use_w_tilde=False)})
+
+    has_mapper = any(p == "mp" for p, _ in obj_specs)
+    src_formalism = rw.choice(["w", "m"]) if has_mapper else "m"
+    src = R.add("inv", {"kind": "inversion", "dataset": ref(D2), "objs": [ref(o) for o in L2], "settings": ref(st_w if src_formalism == "w" else st_m)})
+    slots = [s for s in PUBLIC_SLOTS if rw.random() < 0.5]
+    if "log_det_regularization_matrix_term" in slots and not any(s.get("reg") for _, s in obj_specs):
+        pass
+    kw = {}
+    for s in slots:
+        if s == "w_tilde":
+            kw[s] = {"$attr": [D2 if rw.random() < 0.5 else D, "w_tilde"]}
+        else:
+            kw[s] = {"$attr": [src, s]}
+    pl_use = rw.choice([None, None, True, False])
+    if pl_use is not None:
+        kw["use_w_tilde"] = pl_use
+    P = R.add("pl", {"kind": "preloads", "kw": kw})
+    meta = {"D": D, "D2": D2, "L": L, "L2": L2, "st_w": st_w, "st_m": st_m, "src": src, "P": P, "slots": slots, "preloads_use_w_tilde": pl_use,
+            "has_mapper": has_mapper, "kernel": [ky, kx], "signed_psf": signed, "n_obj": n_obj}
+    return R.nodes, meta
